@@ -95,7 +95,7 @@ def same_field(a, b):
 class C18(Check):
     ID = 'C18'
     LEVEL = 'exploration'
-    BUDGET = {'quick': 30, 'thorough': 300}
+    BUDGET = {'quick': 30, 'thorough': 240}
     RULE = ('case = (1..8 typed columns, separator from {, ; | tab || :: ", "}, escape char \\ or ^, row-set spec (count, string class, '
             'float class, data seed), transport stream|file, file encoding None|utf-8). String classes: plain, blanks at any position incl. '
             'first/last, double quotes, escape chars, separators, unicode, adversarial mix of all (no \\n/\\r); float classes: special values '
@@ -121,11 +121,11 @@ class C18(Check):
         return self.tmp
 
     def generate(self, rng, tier, shard, nshards):
-        n = 12000 if tier == 'quick' else 40000
+        n = 12000 if tier == 'quick' else 10 ** 7
         nfiles = 14 if tier == 'quick' else 60
         skinds = ['plain', 'blank', 'quote', 'escape', 'sep', 'unicode', 'adversarial', 'mixed']
         fkinds = ['special', 'bits', 'decimal', 'digits17', 'integral', 'mixed']
-        file_every = max(1, n // nfiles)
+        file_every = max(1, n // nfiles) if tier == 'quick' else 700
         for k in range(n):
             ncols = rng.choice([1, 2, 3, 4, 8]) if k % 7 else (1, 8)[(k // 7) % 2]
             cols = [rng.choice(['int', 'float', 'bool', 'str', 'str', 'float']) for _ in range(ncols)]
